@@ -42,6 +42,10 @@ pub struct Swarm {
     /// Thousands of rights (two anarchies of 64-72 attributes); no keys or ciphertexts in such runs.
     pub huge: bool,
     /// One policy re-keyed 128-140 times in a row (chain lengths beyond one LEB128 byte).
+    /// Attribute names that differ from a sibling's only by surrounding whitespace.
+    pub padded_names: bool,
+    /// Third dimension named after the first two joined by an underscore.
+    pub alias_names: bool,
     pub mega_burst: bool,
     /// One anarchy of 130-300 attributes and encryption policies that are disjunctions of more
     /// than 128 of them (encapsulations with hundreds of components).
@@ -78,8 +82,10 @@ pub enum Op {
     EncryptRepeat,
     ScaleProbe,
     EncryptOtherThread,
+    KeygenBurst,
+    PqBinding,
 }
-pub const N_OPS: usize = 27;
+pub const N_OPS: usize = 29;
 
 /// Base weights per property profile.
 pub fn base_weights(prop: &str) -> Vec<u32> {
@@ -103,7 +109,7 @@ pub fn base_weights(prop: &str) -> Vec<u32> {
         "C11" => {
             set(stat);
             set(refresh);
-            set(&[(Rekey, 4), (Reload, 2), (Recaps, 1), (DisableAttr, 2), (Update, 3), (Prune, 1), (AddAttr, 1), (DelAttr, 1)]);
+            set(&[(Rekey, 4), (Reload, 2), (Recaps, 1), (DisableAttr, 2), (Update, 3), (Prune, 1), (AddAttr, 1), (DelAttr, 1), (PqBinding, 3)]);
         }
         "C03" => {
             set(stat);
@@ -149,7 +155,7 @@ pub fn base_weights(prop: &str) -> Vec<u32> {
             set(&[(Rekey, 5), (EncryptRepeat, 6), (Reload, 2), (Recaps, 2), (Keygen, 5), (DisableAttr, 2), (Update, 3), (Prune, 1), (EncryptOtherThread, 3)]);
         }
         "C17" => {
-            set(&[(Keygen, 6), (Publish, 1), (Deliver, 6), (Encrypt, 2), (Read, 2), (RequestRefresh, 6), (Rekey, 2), (Reload, 3), (Backup, 2), (Restore, 2), (ForgedRefresh, 2)]);
+            set(&[(Keygen, 6), (Publish, 1), (Deliver, 6), (Encrypt, 2), (Read, 2), (RequestRefresh, 6), (Rekey, 2), (Reload, 3), (Backup, 2), (Restore, 2), (ForgedRefresh, 2), (KeygenBurst, 1)]);
         }
         "C07" => {
             set(stat);
@@ -199,6 +205,8 @@ impl Swarm {
         let mut sw = Self::draw_inner(prop, rng, thorough);
         if matches!(prop, "C01" | "C02" | "C07" | "C12" | "C13") && rng.below(70) == 0 {
             sw.broad = true;
+            sw.padded_names = false;
+            sw.alias_names = false;
             sw.n_dims = 1;
             sw.hierarchy_pct = 0;
             sw.tall = false;
@@ -210,6 +218,8 @@ impl Swarm {
         if matches!(prop, "C05" | "C09" | "C10" | "C13") && rng.below(160) == 0 {
             // a huge structure: only master-key operations, edits and reloads
             sw.huge = true;
+            sw.padded_names = false;
+            sw.alias_names = false;
             sw.n_dims = 2;
             sw.hybrid_pct = 0;
             sw.hierarchy_pct = 0;
@@ -280,6 +290,8 @@ impl Swarm {
             pol_depth: *rng.pick(&[2, 2, 2, 2, 3, 3, 4]),
             bursts: rng.pct(8),
             huge: false,
+            padded_names: rng.pct(4),
+            alias_names: rng.pct(4),
             mega_burst: rng.pct(2),
             broad: false,
         }
@@ -291,8 +303,14 @@ impl Swarm {
 // ---------------------------------------------------------------------------------------------
 
 /// Random policy over the structure in which no conjunction names a dimension twice.
+fn addressable(a: &MAttr) -> bool {
+    a.name == a.name.trim()
+}
+
 pub fn gen_pol(rng: &mut Rng, s: &MStruct, depth: u32) -> Pol {
-    let dims: Vec<usize> = (0..s.dims.len()).filter(|i| !s.dims[*i].attrs.is_empty()).collect();
+    // attributes whose name has surrounding whitespace cannot be named in a policy string
+    // (the parser trims names): they only exist through the structure-editing API
+    let dims: Vec<usize> = (0..s.dims.len()).filter(|i| s.dims[*i].attrs.iter().any(addressable)).collect();
     if dims.is_empty() || rng.pct(4) {
         return Pol::All;
     }
@@ -302,7 +320,8 @@ pub fn gen_pol(rng: &mut Rng, s: &MStruct, depth: u32) -> Pol {
 fn gen_pol_dims(rng: &mut Rng, s: &MStruct, dims: &[usize], depth: u32) -> Pol {
     let term = |rng: &mut Rng| {
         let d = &s.dims[*rng.pick(dims)];
-        let a = rng.pick(&d.attrs);
+        let ok: Vec<&MAttr> = d.attrs.iter().filter(|a| addressable(a)).collect();
+        let a = *rng.pick(&ok);
         Pol::Term(d.name.clone(), a.name.clone())
     };
     if depth == 0 || rng.pct(35) {
@@ -328,6 +347,9 @@ pub fn pol_of_right(s: &MStruct, r: &MRight) -> Option<Pol> {
     let mut p: Option<Pol> = None;
     for id in r {
         let (d, a) = s.attr_by_ident(*id)?;
+        if !addressable(a) {
+            return None;
+        }
         let t = Pol::Term(d.name.clone(), a.name.clone());
         p = Some(match p {
             None => t,
@@ -393,6 +415,19 @@ impl Gen {
     }
 
     fn fresh_attr_name(&mut self, rng: &mut Rng, d: &MDim) -> String {
+        if self.sw.padded_names && !d.attrs.is_empty() && rng.pct(40) {
+            // the name of a sibling with surrounding whitespace: a different name for the
+            // structure-editing API (which does not trim)
+            let base = rng.pick(&d.attrs).name.trim().to_string();
+            let n = match rng.below(3) {
+                0 => format!("{base} "),
+                1 => format!(" {base}"),
+                _ => format!("  {base}  "),
+            };
+            if !d.attrs.iter().any(|a| a.name == n) {
+                return n;
+            }
+        }
         if self.sw.long_names && rng.pct(50) {
             self.name_ctr += 1;
             // mostly just above the one-byte length prefix, now and then above 64 KiB
@@ -415,17 +450,20 @@ impl Gen {
         let mut s = MStruct::default();
         let mut names: Vec<&str> = DIM_NAMES.to_vec();
         rng.shuffle(&mut names);
+        let alias = format!("{}_{}", names[0], names[1]);
         for di in 0..self.sw.n_dims {
             let hierarchy = rng.pct(self.sw.hierarchy_pct);
-            let dname = names[di].to_string();
+            let dname = if di == 2 && self.sw.alias_names { alias.clone() } else { names[di].to_string() };
             evs.push(Ev::AddDim { name: dname.clone(), hierarchy });
             if di == 0 && self.sw.big_ids {
-                // churn: push the attribute-id counter beyond 127
-                for k in 0..rng.range(125, 135) {
-                    let n = format!("churn{k}");
-                    evs.push(Ev::AddAttr { dim: dname.clone(), name: n.clone(), hybrid: false, after: None });
-                    evs.push(Ev::DelAttr { dim: dname.clone(), name: n });
-                }
+                // churn: push the attribute-id counter past an encoding boundary
+                // (one-byte LEB128, two-byte LEB128, 16 bits)
+                let n = match rng.below(10) {
+                    0 => rng.range(65_530, 65_545),
+                    1 | 2 => rng.range(16_380, 16_390),
+                    _ => rng.range(125, 135),
+                };
+                evs.push(Ev::ChurnIds { dim: dname.clone(), n });
             }
             let mut d = MDim { name: dname.clone(), hierarchy, attrs: vec![] };
             let cap = if self.sw.n_dims >= 4 { self.sw.max_attrs.min(2) } else { self.sw.max_attrs };
@@ -614,7 +652,7 @@ impl Gen {
             }
             6 | 7 => {
                 // a single attribute
-                let attrs = s.all_attrs();
+                let attrs: Vec<(String, String)> = s.all_attrs().into_iter().filter(|(_, a)| a == a.trim()).collect();
                 match rng.pick_opt(&attrs) {
                     Some((d, a)) => arg(rng, Pol::Term(d.clone(), a.clone())),
                     None => arg(rng, Pol::All),
@@ -719,10 +757,33 @@ impl Gen {
                 Ev::RequestRefresh { user, keep: rng.pct(50), delay: 0, dup: false, tamper: Some(op) }
             }
             x if x == Op::Rekey as usize => {
-                let ev = Ev::Rekey { pol: self.rotation_pol(rng, w) };
+                let mut ev = Ev::Rekey { pol: self.rotation_pol(rng, w) };
                 if self.sw.mega_burst {
                     self.sw.mega_burst = false;
-                    for _ in 0..rng.range(128, 140) {
+                    // a narrow policy (one attribute of every dimension) keeps the number of
+                    // rotated rights, hence the size of the keys, small
+                    let mut p: Option<Pol> = None;
+                    for d in &s.dims {
+                        let ok: Vec<&MAttr> = d.attrs.iter().filter(|a| addressable(a)).collect();
+                        if let Some(a) = rng.pick_opt(&ok) {
+                            let t = Pol::Term(d.name.clone(), a.name.clone());
+                            p = Some(match p {
+                                None => t,
+                                Some(q) => Pol::And(Box::new(q), Box::new(t)),
+                            });
+                        }
+                    }
+                    if let Some(p) = p {
+                        ev = Ev::Rekey { pol: arg(rng, p) };
+                    }
+                    // past the one-byte count (128), past 256, and - where re-encapsulation or
+                    // key tampering is the subject - past 512
+                    let n = match rng.below(10) {
+                        0 if matches!(self.prop.as_str(), "C18" | "C08" | "C04") => rng.range(515, 525),
+                        0 | 1 | 2 => rng.range(257, 270),
+                        _ => rng.range(128, 140),
+                    };
+                    for _ in 0..n {
                         self.pending.push(ev.clone());
                     }
                 } else if self.sw.bursts && rng.pct(30) {
@@ -905,6 +966,19 @@ impl Gen {
                 Ev::TamperEnc { slot, op }
             }
             x if x == Op::Hostile as usize => self.hostile(rng, w),
+            x if x == Op::KeygenBurst as usize => {
+                // rare: more than 255 identifiers registered in the master key
+                if !rng.pct(6) {
+                    return None;
+                }
+                Ev::KeygenBurst { user: rng.below(w.users.len()), pol: self.keygen_pol(rng, w), n: rng.range(256, 300) }
+            }
+            x if x == Op::PqBinding as usize => {
+                let user = self.user_with_key(rng, w)?;
+                let mu = &w.users[user].usk.as_ref().unwrap().1;
+                let cands: Vec<usize> = (0..w.slots.len()).filter(|i| w.slots[*i].kind == SlotKind::Kem && w.slots[*i].m.hybrid && mu.opens(&w.slots[*i].m)).collect();
+                Ev::PqBinding { user, slot: *rng.pick_opt(&cands)? }
+            }
             x if x == Op::ScaleProbe as usize => {
                 // rare and cheap when the reader is linear (a few milliseconds)
                 if !rng.pct(10) {
@@ -922,7 +996,10 @@ impl Gen {
     }
 
     pub fn usk_op(&mut self, rng: &mut Rng, w: &World, user: usize) -> UskOp {
-        if self.prop == "C17" && rng.pct(70) {
+        if self.prop == "C17" && rng.pct(25) {
+            return UskOp::IdFrom { other_user: rng.below(w.users.len()) };
+        }
+        if self.prop == "C17" && rng.pct(60) {
             // bytes 1..65 (66 with P-256 points following) hold the identifier markers
             return UskOp::FlipBit { pos: 1 + rng.below(64), bit: rng.below(8) as u8 };
         }
@@ -932,7 +1009,7 @@ impl Gen {
             24 | 25 => UskOp::SplitChain { i: rng.below(n_rights), k: rng.below(3) },
             26 | 27 => UskOp::AddEmptyRight { other_user: other, j: rng.below(8), raw: { let n = rng.range(0, 3); rng.bytes(n) } },
             28 | 29 => UskOp::MoveSecretToEnd { from: rng.below(n_rights), to: rng.below(n_rights) },
-            30 | 31 => UskOp::SwapSecretsAcross { i: rng.below(n_rights), k: rng.below(3), j: rng.below(n_rights), l: rng.below(3) },
+            30 | 31 => UskOp::SwapSecretsAcross { i: rng.below(n_rights), k: if rng.pct(50) { rng.below(3) } else { rng.below(100_000) }, j: rng.below(n_rights), l: if rng.pct(50) { rng.below(3) } else { rng.below(100_000) } },
             0 | 1 => UskOp::MergeAdjacent { i: rng.below(n_rights) },
             2 => UskOp::SplitName { i: rng.below(n_rights), k: rng.range(1, 3) },
             3 => UskOp::MoveSecret { from: rng.below(n_rights), to: rng.below(n_rights) },
@@ -940,9 +1017,9 @@ impl Gen {
             5 => UskOp::DupRight { i: rng.below(n_rights) },
             6 => UskOp::DropRight { i: rng.below(n_rights) },
             7 => UskOp::RenameRight { i: rng.below(n_rights), name: { let n = rng.range(0, 3); rng.bytes(n) } },
-            8 => UskOp::DropSecret { i: rng.below(n_rights), k: rng.below(3) },
-            9 => UskOp::DupSecret { i: rng.below(n_rights), k: rng.below(3) },
-            10 => UskOp::SwapSecrets { i: rng.below(n_rights), k: rng.below(2) },
+            8 => UskOp::DropSecret { i: rng.below(n_rights), k: if rng.pct(50) { rng.below(3) } else { rng.below(100_000) } },
+            9 => UskOp::DupSecret { i: rng.below(n_rights), k: if rng.pct(50) { rng.below(3) } else { rng.below(100_000) } },
+            10 => UskOp::SwapSecrets { i: rng.below(n_rights), k: if rng.pct(50) { rng.below(2) } else { rng.below(100_000) } },
             11 | 12 => UskOp::HybridToClassicShift { i: rng.below(n_rights) },
             13 => UskOp::FlipFlavourFlag { i: rng.below(n_rights), k: rng.below(2) },
             14 => UskOp::MarkerIntoName,
